@@ -55,6 +55,10 @@ func (p *IdentityProvider) attributeQueryHandleFunc(w http.ResponseWriter, r *ht
 			if err != nil {
 				return err
 			}
+			if attrQuery == nil {
+				err = fmt.Errorf("no attribute query in request")
+				return err
+			}
 			return nil
 		},
 		func() {
@@ -65,6 +69,10 @@ func (p *IdentityProvider) attributeQueryHandleFunc(w http.ResponseWriter, r *ht
 	// get persisted service provider from issuer out of the request
 	checkerInstance.WithLogicStep(
 		func() error {
+			if attrQuery.Issuer == nil {
+				err = fmt.Errorf("issuer is missing in request")
+				return err
+			}
 			sp, err = p.GetServiceProvider(r.Context(), attrQuery.Issuer.Text)
 			if err != nil {
 				return err
@@ -118,6 +126,10 @@ func (p *IdentityProvider) attributeQueryHandleFunc(w http.ResponseWriter, r *ht
 	attrs := &Attributes{}
 	checkerInstance.WithLogicStep(
 		func() error {
+			if attrQuery.Subject.NameID == nil {
+				err = fmt.Errorf("subject nameID is missing in request")
+				return err
+			}
 			if err := p.storage.SetUserinfoWithLoginName(r.Context(), attrs, attrQuery.Subject.NameID.Text, []int{}); err != nil {
 				return err
 			}
